@@ -74,7 +74,7 @@ def st_case(draw):
     elif D == 1:
         regime = draw(st.sampled_from(["ge", "ge", "le", "le"]))
     else:
-        regime = draw(st.sampled_from(["ge", "ge", "le", "le", "mixed"]))
+        regime = draw(st.sampled_from(["ge", "ge", "le", "le", "mixed", "mixed"]))
     m = [None] * D
     n = [None] * D
     order = list(range(D))
